@@ -130,13 +130,14 @@ def run_parent(prop: str, tier: str, seed: int) -> int:
                         results.append(r)
                         got += 1
         if got < n and not any(s.startswith(f"worker {w}:") for s in incomplete):
-            tail = ""
-            try:
-                with open(os.path.join(work, f"log_{w}.txt")) as f:
-                    tail = f.read()[-1500:]
-            except OSError:
-                pass
-            incomplete.append(f"worker {w}: exit {p.returncode}, {got}/{n} cases reported; log tail: {tail}")
+            # the worker process died (e.g. a native abort inside jaxlib/XLA while compiling one configuration): the first
+            # unreported case is marked inconclusive and the rest of the shard is re-run in a fresh process
+            shard = [c for j, c in enumerate(cases) if j % n_workers == w]
+            more, note = rescue_shard(prop, tier, seed, shard, {r["i"] for r in results}, work, w, env, deadline, p.returncode)
+            results.extend(r for r in more if not r.get("meta"))
+            metas.extend(r for r in more if r.get("meta"))
+            if note:
+                incomplete.append(note)
 
     rc = aggregate(prop, tier, seed, mod, cases, results, metas, incomplete, time.time() - t0, work)
     if rc == 0 and not os.environ.get("VMON_KEEP_WORK"):
@@ -147,6 +148,50 @@ def run_parent(prop: str, tier: str, seed: int) -> int:
             if fn.startswith("in_"):
                 os.remove(os.path.join(work, fn))
     return rc
+
+
+def rescue_shard(prop, tier, seed, shard, reported, work, w, env, deadline, first_rc, max_restarts=6):
+    out = []
+    rc = first_rc
+    for attempt in range(max_restarts):
+        todo = [c for c in shard if c["i"] not in reported and c["i"] not in {r.get("i") for r in out}]
+        if not todo:
+            return out, None
+        suspect = todo[0]
+        tail = ""
+        try:
+            with open(os.path.join(work, f"log_{w}.txt")) as f:
+                txt = f.read()
+            lines = [l for l in txt.splitlines() if l.strip() and not l.lstrip().startswith("@")]
+            tail = " | ".join(lines[-4:])[-600:]
+        except OSError:
+            pass
+        out.append({"i": suspect["i"], "status": "inconclusive", "nontrivial": False, "key": f"worker-died-{suspect['i']}", "evals": 0,
+                    "why": f"the worker process died (exit {rc}) while running this case - a native abort outside Python (jaxlib/XLA), not a verdict on the property; log: {tail}"})
+        rest = todo[1:]
+        if not rest:
+            return out, None
+        if time.time() > deadline:
+            return out, f"worker {w}: died and the watchdog left no time to re-run {len(rest)} cases"
+        inp = os.path.join(work, f"in_{w}_r{attempt}.json")
+        outp = os.path.join(work, f"out_{w}_r{attempt}.jsonl")
+        with open(inp, "w") as f:
+            json.dump({"prop": prop, "tier": tier, "seed": seed, "cases": rest}, f)
+        with open(os.path.join(work, f"log_{w}.txt"), "w") as log:
+            try:
+                pr = subprocess.run([PY, "-m", "vmon.worker", inp, outp], env=env, cwd=VERIF, stdout=log, stderr=subprocess.STDOUT, timeout=max(1.0, deadline - time.time()))
+                rc = pr.returncode
+            except subprocess.TimeoutExpired:
+                return out, f"worker {w}: re-run after a crash hit the watchdog"
+        if os.path.exists(outp):
+            with open(outp) as f:
+                for line in f:
+                    try:
+                        out.append(json.loads(line))
+                    except json.JSONDecodeError:
+                        pass
+    todo = [c for c in shard if c["i"] not in reported and c["i"] not in {r.get("i") for r in out}]
+    return out, (f"worker {w}: still {len(todo)} unreported cases after {max_restarts} restarts" if todo else None)
 
 
 def aggregate(prop, tier, seed, mod, cases, results, metas, incomplete, wall, work) -> int:
